@@ -116,6 +116,12 @@ def gen_case(rng):
     # rows of one station that disagree on its latitude (verif warns and keeps the first): values must survive
     if st["has_loc"] and st["latlon"] and rng.random() < 0.15:
         st["conflict"] = {gen.fnum(l[0]): 0.5 for l in rng.sample(inp["locs"], 1)}
+    if members and rng.random() < 0.4:
+        # member columns need not be numbered 0..N-1 (1-based files, a subset of a larger ensemble)
+        if rng.random() < 0.5:
+            st["member_labels"] = list(range(1, members + 1))
+        else:
+            st["member_labels"] = sorted(rng.sample(range(0, 30), members))
     inp["style"] = st
     ccls = rng.choice(["none", "text", "bare", "nospace"])
     return {"inp": inp, "comment_class": ccls, "sparse": sparse}
